@@ -228,6 +228,13 @@ func runC20(e *core.Env) error {
 		verdict, tags := overlapScenario(ctx, s)
 		e.Add(core.Case{Impl: verdict, Spec: "ok", Key: fmt.Sprintf("mgr-overlap %d", s), Nontrivial: true, Tags: append(tags, "manager-overlapping-restarts")})
 	}
+	// ---- (2c) a restart requested while a step of the running generation is IN FLIGHT (its first database
+	// statement is held back): the restart must not report success - nor may a runner of the next
+	// generation start - before that step has finished
+	for s := 0; s < e.N(2, 10) && !e.OverBudget(); s++ {
+		verdict, tags := inflightScenario(ctx, s)
+		e.Add(core.Case{Impl: verdict, Spec: "ok", Key: fmt.Sprintf("mgr-inflight %d", s), Nontrivial: true, Tags: append(tags, "manager-restart-during-step")})
+	}
 	// a restart whose reload fails (an integration stored through the dashboard references an unknown
 	// source): the property wants exactly the configured tasks running; recorded finding: nothing runs
 	{
@@ -440,7 +447,7 @@ func overlapScenario(ctx context.Context, s int) (string, []string) {
 	}
 	node := simnode.NewNode(transferChain(4, uint64(300+s)))
 	defer func() {
-		pg.SetFaultHook(nil)
+		pg.SetHoldHook(nil)
 		node.Close()
 		go pool.Close()
 		pg.Close()
@@ -494,23 +501,23 @@ func overlapScenario(ctx context.Context, s int) (string, []string) {
 	var mu sync.Mutex
 	armed, seenRead, after, held := true, false, 0, false
 	reached, release := make(chan struct{}), make(chan struct{})
-	pg.SetFaultHook(func(ev fakepg.Event) fakepg.Fault {
+	pg.SetHoldHook(func(ev fakepg.Event) {
 		mu.Lock()
 		if !armed || held {
 			mu.Unlock()
-			return fakepg.NoFault
+			return
 		}
 		if !seenRead {
 			if strings.Contains(ev.SQL, "shovel.integrations") && ev.Kind == "query" {
 				seenRead = true
 			}
 			mu.Unlock()
-			return fakepg.NoFault
+			return
 		}
 		if after < holdAt {
 			after++
 			mu.Unlock()
-			return fakepg.NoFault
+			return
 		}
 		held = true
 		mu.Unlock()
@@ -519,7 +526,6 @@ func overlapScenario(ctx context.Context, s int) (string, []string) {
 		case <-release:
 		case <-time.After(3 * time.Second):
 		}
-		return fakepg.NoFault
 	})
 	aDone, bDone := make(chan error, 1), make(chan error, 1)
 	go func() { aDone <- mgr.Restart() }()
@@ -587,4 +593,110 @@ func overlapScenario(ctx context.Context, s int) (string, []string) {
 		}
 	}
 	return "ok", tags
+}
+
+// inflightScenario: see (2c) in runC20
+func inflightScenario(ctx context.Context, s int) (string, []string) {
+	shovel.VerifEvents()
+	pg := fakepg.New()
+	url, _ := pg.Start()
+	cfgp, _ := pgxpool.ParseConfig(url)
+	cfgp.MaxConns = 10
+	pool, err := pgxpool.NewWithConfig(ctx, cfgp)
+	if err != nil {
+		return "setup: " + err.Error(), nil
+	}
+	node := simnode.NewNode(transferChain(4, uint64(500+s)))
+	defer func() {
+		pg.SetHoldHook(nil)
+		node.Close()
+		go pool.Close()
+		pg.Close()
+	}()
+	conf := config.Root{
+		Sources:      []config.Source{{Name: "s1", ChainID: 1, URLs: []string{node.URL() + "/nocache"}, PollDuration: 3 * time.Millisecond, BatchSize: 2}},
+		Integrations: []config.Integration{gIg{name: "iga", enabled: true, srcs: []string{"s1"}, refs: [][3]uint64{{0, 1, 0}}}.cfg()},
+	}
+	if err := config.ValidateFix(&conf); err != nil {
+		return "setup: " + err.Error(), nil
+	}
+	conn, _ := pool.Acquire(ctx)
+	if err := config.Migrate(ctx, conn, conf); err != nil {
+		conn.Release()
+		return "setup: " + err.Error(), nil
+	}
+	conn.Release()
+	// hold back the (1+s%3)-th step of the first generation at its first statement
+	var mu sync.Mutex
+	nth, seen, held := 1+s%3, 0, false
+	reached, release := make(chan struct{}), make(chan struct{})
+	var heldConn int
+	var afterHold []fakepg.Event
+	pg.SetHoldHook(func(ev fakepg.Event) {
+		mu.Lock()
+		if held {
+			if ev.Conn != heldConn {
+				afterHold = append(afterHold, ev)
+			}
+			mu.Unlock()
+			return
+		}
+		if ev.Kind == "begin" {
+			seen++
+			if seen == nth {
+				held, heldConn = true, ev.Conn
+				mu.Unlock()
+				close(reached)
+				select {
+				case <-release:
+				case <-time.After(3 * time.Second):
+				}
+				return
+			}
+		}
+		mu.Unlock()
+	})
+	mgr := shovel.NewManager(ctx, pool, conf)
+	go func() {
+		for {
+			mgr.Updates()
+		}
+	}()
+	ec := make(chan error)
+	go mgr.Run(ec)
+	if err := <-ec; err != nil {
+		return "first run: " + err.Error(), nil
+	}
+	select {
+	case <-reached:
+	case <-time.After(3 * time.Second):
+		return "ok", []string{"hold-not-reached"}
+	}
+	done := make(chan error, 1)
+	go func() { done <- mgr.Restart() }()
+	verdict := "ok"
+	select {
+	case err := <-done:
+		verdict = fmt.Sprintf("Restart returned (%v) while a step of the running generation was still in flight", err)
+	case <-time.After(150 * time.Millisecond):
+	}
+	mu.Lock()
+	for _, ev := range afterHold {
+		if ev.Kind == "begin" && verdict == "ok" {
+			verdict = "another step started (a transaction was opened on another connection) while the held step of the previous generation was still in flight"
+		}
+	}
+	mu.Unlock()
+	close(release)
+	if verdict == "ok" {
+		select {
+		case err := <-done:
+			if err != nil {
+				verdict = "restart returned " + err.Error()
+			}
+		case <-time.After(5 * time.Second):
+			verdict = "restart did not return after the held step was released"
+		}
+	}
+	return verdict, []string{fmt.Sprintf("held-step=%d", nth)}
 }
